@@ -428,6 +428,19 @@ func exec(spec string) (res engine.Result) {
 		}
 		return
 	}
+	if strings.HasPrefix(spec, "count|") { // development aid: cases per function
+		m := map[string]int{}
+		enumerate(spec[6:], func(sp string) { m[sp[:strings.IndexByte(sp, '|')]]++ })
+		var keys []string
+		for k := range m {
+			keys = append(keys, k)
+		}
+		sort.Strings(keys)
+		for _, k := range keys {
+			res.Outcome += fmt.Sprintf("%s=%d ", k, m[k])
+		}
+		return
+	}
 	c, perr := parseSpec(spec)
 	if perr != nil || family(c.fn) == famNone {
 		res.Fail("harness:bad-spec", fmt.Sprintf("%s: %v", spec, perr))
